@@ -1,0 +1,7 @@
+//go:build !verif
+
+package eval
+
+// verifStep is a no-op (and inlined away) unless the package is built with
+// the `verif` build tag; see verif_on.go.
+func verifStep(_ *Ctx, _ *Expr, _ uint8, _ int16, _ int16, _ int) {}
